@@ -47,6 +47,10 @@ def generate(seed, tier, idx=0):
         p_abs=rng.choice([0.1, 0.2, 0.4]))
     case = {"program": prog, "strategy": 3,
             "commands": [["initialize"], ["start"], ["settle"]]}
+    if rng.random() < 0.08:
+        # the process has created a lot of events before: the id counter is just below
+        # a word-size boundary when the model is built
+        case["id_offset"] = rng.choice([2 ** 31, 2 ** 32, 2 ** 63, 2 ** 64]) - rng.randint(1, 12)
     r = rng.random()
     if r < 0.67:
         case["sched"] = {"kind": "S0"}
